@@ -106,3 +106,79 @@ def emit(R, fam):
             "fidelity": X.fidelity(p.src_body, wb, extra_vocab=["IO", "writeNumbers", "writeRule", "writeFlag", "writeVector", "write", "iomode", "mode_ascii", "os", "pad_rspace", "pad_line", "pad_auto",
                                                                  "empty", "size", "getNumStrips", "scientific", "precision", "17", "getRule", "RuleLocal"] + sorted(ALLM), slack=40)}
     return "\n".join(out), info
+
+
+TOP = "SparseGrids/TasmanianSparseGrid.cpp"
+def emit_top_binary(R):
+    """TasmanianSparseGrid::writeBinary / readBinary (top-level framing) onto the token tape."""
+    text = X.strip_comments(X.read_source(TOP))
+    (pw,) = X.cut(TOP, r'void\s+TasmanianSparseGrid::writeBinary\s*\(\s*std::ostream\s*&ofs\s*\)\s*const', text)
+    b = pw.body
+    b = R.sub("R12-magic", r'const\s+char\s*\*TSG\s*=\s*"TSG5"\s*;', 'const char *TSG = "TSG5";', b)
+    b = R.sub("R12-magic", r'ofs\.write\(\s*TSG\s*,\s*4\s*\*\s*sizeof\(char\)\s*\)\s*;', 'tape_write_magic(TSG);', b)
+    b = X.balanced_call_sub(R, "R12-writeNumbers", b, r'IO::writeNumbers<[^>]*>\s*(?=\()', lambda m, a: "tape_write_char(%s)" % X.split_top(a)[1])
+    b = X.balanced_call_sub(R, "R12-writeVector", b, r'IO::writeVector<[^>]*>\s*(?=\()', lambda m, a: "tape_write_vec(self->%s)" % X.split_top(a)[0])
+    b = R.sub("R12-base-write", r'\bbase->write\(\s*ofs\s*,\s*mode_binary\s*\)\s*;', 'tape_write_base(self);', b)
+    b = R.sub("R12-base-write", r'\bbase->writeConstructionData\(\s*ofs\s*,\s*mode_binary\s*\)\s*;', 'tape_write_construction(self);', b)
+    for k in ("isGlobal", "isSequence", "isLocalPolynomial", "isWavelet", "isFourier", "empty"):
+        b = R.sub("R10-member-call", r'(?<![\w.>])%s\(\)' % k, 'TT_%s(self)' % k, b)
+    b = R.sub("R5g-size", r'\b(domain_transform_a|conformal_asin_power)\.size\(\)', r'self->\1.len', b)
+    b = R.sub("R5g-empty", r'\bllimits\.empty\(\)', '(self->llimits.len == 0)', b)
+    b = R.sub("R10-member", r'(?<![\w.>])using_dynamic_construction\b', 'self->using_dynamic_construction', b)
+    X.check_leftover(b, "writeBinary")
+    wt = '#line %d "%s"\nvoid top_writeBinary(const TT *self)%s\n' % (pw.line, X.REPO + "/" + pw.rel, b)
+    (pr,) = X.cut(TOP, r'void\s+TasmanianSparseGrid::readBinary\s*\(\s*std::istream\s*&ifs\s*\)', text)
+    c = pr.body
+    src = c
+    c = R.sub("R5g-local-vector", r'std::vector<double>\s+new_domain_transform_a\s*,\s*new_domain_transform_b\s*;', 'gvec new_domain_transform_a = vec_none(), new_domain_transform_b = vec_none();', c)
+    c = R.sub("R5g-local-vector", r'std::vector<int>\s+(new_conformal_asin_power|new_llimits)\s*;', r'gvec \1 = vec_none();', c)
+    c = R.sub("R12-magic", r'std::vector<char>\s+TSG\(4\)\s*;', 'char TSG[4];', c)
+    c = R.sub("R12-magic", r'ifs\.read\(\s*TSG\.data\(\)\s*,\s*4\s*\*\s*sizeof\(char\)\s*\)\s*;', 'tape_read_magic(TSG);', c)
+    hoisted, c = X.hoist_lambda(R, c, "readBinary_new_base", [])
+    c = X.r9_throws(R, c)
+    hoisted = R.sub("R12-read-family", r'return\s+readGridVersion5<(\w+)>\(\s*acceleration\.get\(\)\s*,\s*ifs\s*,\s*IO::mode_binary_type\(\)\s*\)\s*;', r'return tape_read_base(K_\1);', hoisted)
+    hoisted = R.sub("R12-null-base", r'return\s+std::unique_ptr<BaseCanonicalGrid>\(\)\s*;', 'return base_none();', hoisted)
+    hoisted = X.r9_throws(R, hoisted, ret="return base_none();")
+    hoisted = hoisted.replace("static std::unique_ptr<BaseCanonicalGrid> readBinary_new_base", "static gbase readBinary_new_base")
+    c = R.sub("R12-new-base", r'std::unique_ptr<BaseCanonicalGrid>\s+new_base\s*=', 'gbase new_base =', c)
+    c = R.sub("R9-propagate", r'(gbase new_base = readBinary_new_base\([^;]*\);)', r'\1 if (tsg_exc) return;', c)
+    c = R.sub("R12-readNumber", r'IO::readNumber<\s*IO::mode_binary_type\s*,\s*char\s*>\(\s*ifs\s*\)', 'tape_read_char()', c)
+    c = X.balanced_call_sub(R, "R12-readVector", c, r'IO::readVector<\s*IO::mode_binary_type\s*,\s*\w+\s*>\s*(?=\()', lambda m, a: "tape_read_vec((size_t)(%s))" % X.split_top(a)[1])
+    c = R.sub("R10-base-call", r'\bnew_base->getNumDimensions\(\)', 'base_dims(&new_base)', c)
+    c = R.sub("R12-base-read", r'\bnew_base->readConstructionData\(\s*ifs\s*,\s*mode_binary\s*\)\s*;', 'tape_read_construction(&new_base); if (tsg_exc) return;', c)
+    c = R.sub("R10-member-call", r'(?<![\w.>])clear\(\)\s*;', 'TT_clear(self);', c)
+    c = R.sub("R2-std-move", r'std::move\((\w+)\)', r'\1', c)
+    for mname in ("base", "domain_transform_a", "domain_transform_b", "conformal_asin_power", "llimits", "using_dynamic_construction"):
+        c = R.sub("R10-member", r'(?<![\w.>_])%s\s*=(?!=)' % mname, 'self->%s =' % mname, c)
+    X.check_leftover(c + hoisted, "readBinary")
+    R.require({"R12-read-family": 5, "R12-readVector": 4, "R12-readNumber": 5, "R12-writeNumbers": 10, "R7-hoist": 1})
+    rt = '#line %d "%s"\n%s#line %d "%s"\nvoid top_readBinary(TT *self)%s\n' % (pr.line, X.REPO + "/" + pr.rel, hoisted, pr.line, X.REPO + "/" + pr.rel, c)
+    info = {"functions": [{"name": "TasmanianSparseGrid::writeBinary", "file": pw.rel, "line": pw.line, "loops": 0}, {"name": "TasmanianSparseGrid::readBinary", "file": pr.rel, "line": pr.line, "loops": 0}],
+            "rules_fired": {k: v for k, v in R.counts.items() if v},
+            "drops": ["the ASCII framing (writeAscii / readAscii: string parsing, stoi) is not under this contract", "the family serializers are single tokens here (they are the per-family jobs)"]}
+    return wt + rt, info
+
+
+def emit_version_check(R):
+    """The version test of TasmanianSparseGrid::readAscii (block selector): from `if (vmajor < 3)` to the end of the future-version test."""
+    text = X.strip_comments(X.read_source(TOP))
+    (p,) = X.cut(TOP, r'void\s+TasmanianSparseGrid::readAscii\s*\(\s*std::istream\s*&ifs\s*\)', text)
+    m = re.search(r'if\s*\(\s*vmajor\s*<\s*3\s*\)[^;]*;\s*if\s*\(', p.body)
+    if not m:
+        raise X.ExtractionBreak("readAscii: version test not found")
+    k = m.end() - 1
+    e = X.match_close(p.body, k, '(', ')')
+    k2 = e + 1
+    while p.body[k2] in ' \t\r\n': k2 += 1
+    e2 = X.match_close(p.body, k2)
+    b = p.body[m.start():e2 + 1]
+    src = b
+    b = R.sub("R9-message", r'message\s*\+=\s*[^;]*;', '', b)
+    b = X.r9_throws(R, b)
+    b = R.sub("R10-member-call", r'(?<![\w.>])getVersion(Major|Minor)\(\)', r'g_version_\1', b)
+    X.check_leftover(b, "readAscii version test")
+    R.require({"R9-throw-runtime_error": 2, "R10-member-call": 3})
+    line = p.line + (p.header + p.body[:m.start()]).count('\n')
+    out = '#line %d "%s"\nvoid version_check(int vmajor, int vminor){ %s }\n' % (line, X.REPO + "/" + p.rel, b)
+    return out, {"functions": [{"name": "TasmanianSparseGrid::readAscii (version test)", "file": p.rel, "line": line, "loops": 0}], "rules_fired": {k: v for k, v in R.counts.items() if v},
+                 "fidelity": X.fidelity(src, b, extra_vocab=["message", "to_string", "runtime_error", "getVersionMajor", "getVersionMinor", "+", "+="], slack=6)}
